@@ -1788,6 +1788,11 @@ func (fv *FuncVerifier) checkAssertsBefore(s ast.Stmt, st *State, after bool) {
 		if after {
 			when = "after"
 		}
+		if ab.Assume {
+			fv.u.note("assumed after `%s` (trusted contract of an opaque call): %s", ab.Anchor, ab.Clause.Text)
+			st.assume(t)
+			continue
+		}
 		kind := "assert"
 		if ab.Hint {
 			kind = "hint"
